@@ -530,7 +530,10 @@ def class_program(pid, rnd):
     def small(params):
         f = bfs(params)
         return r.choice([N("this"), N("mget", x=r.choice(["a", "b"]), k=[N("this")]), N("num", n=r.randint(0, 3)), N("ref", x=params[0]) if params else N("num", n=1),
-                         g.expr(1, f), N("arglen"), N("mset", x=r.choice(["a", "b"]), k=[N("this"), N("num", n=r.randint(1, 3))])])
+                         g.expr(1, f), N("arglen"), N("mset", x=r.choice(["a", "b"]), k=[N("this"), N("num", n=r.randint(1, 3))]),
+                         N("superget", x=r.choice(["a", "b"])), N("superget", x=r.choice(["a", "b"])),
+                         N("supermcall", x=r.choice(["a", "b"]), k=[N("num", n=r.randint(0, 3))] if r.random() < 0.5 else []),
+                         N("superset", x=r.choice(["a", "b"]), k=[N("num", n=r.randint(1, 3))])])
 
     def members():
         ms = []
@@ -674,6 +677,12 @@ def pe(e, o):
         return "(%s%s)" % (sym, mem(pe(e["k"][0], o), e["x"], o)) if e["op"] == "pre" else "(%s%s)" % (mem(pe(e["k"][0], o), e["x"], o), sym)
     if t == "classe":
         return "(%s)" % pclass(e, o, 0)
+    if t == "superget":
+        return "super[KEY_%s]" % e["x"] if o.get("compkey") else "super.%s" % e["x"]
+    if t == "supermcall":
+        return "%s(%s)" % ("super[KEY_%s]" % e["x"] if o.get("compkey") else "super.%s" % e["x"], ", ".join(pe(a, o) for a in e["k"]))
+    if t == "superset":
+        return "(%s = %s)" % ("super[KEY_%s]" % e["x"] if o.get("compkey") else "super.%s" % e["x"], pe(e["k"][0], o))
     if t == "supercall":
         return "super(%s)" % ", ".join(pe(a, o) for a in e["k"])
     if t == "new":
